@@ -14,6 +14,7 @@ impl Tokenizer {
         let mut previous = None;
         let mut tokens = Vec::new();
         let mut nest_lvl = 0; // Nest level of the comments
+        let line_count = asn.lines().count();
 
         for (line_0, line) in asn.lines().enumerate() {
             let mut token = None;
@@ -35,9 +36,7 @@ impl Tokenizer {
                             }
                         }
                         _ => {
-                            if content_iterator.peek().is_none()
-                                && line_0 == asn.lines().count() - 1
-                            {
+                            if content_iterator.peek().is_none() && line_0 == line_count - 1 {
                                 panic!("The file has unclosed comment blocks. Nested comment blocks are counted.");
                             } else {
                                 continue;
